@@ -1,8 +1,12 @@
 #!/usr/bin/env python3
-"""Regenerates MANIFEST.json from tools/claims.json (one entry per claimed property) + properties.jsonl."""
+"""Regenerates MANIFEST.json from tools/claims/Cxx.json (one file per claimed property) + properties.jsonl."""
 import json, os
 R = os.path.dirname(os.path.dirname(os.path.abspath(__file__)))
-claims = json.load(open(os.path.join(R, "tools", "claims.json")))
+claims = {}
+cd = os.path.join(R, "tools", "claims")
+for f in sorted(os.listdir(cd)):
+    if f.endswith(".json"):
+        claims[f[:-5]] = json.load(open(os.path.join(cd, f)))
 props = [json.loads(l) for l in open(os.path.join(R, "properties.jsonl"))]
 checks, na = [], []
 for p in props:
